@@ -37,6 +37,11 @@ for sel, refused in (("SEL_BEXT", 1), ("SEL_CART", 1), ("SEL_BEXT", 0), ("SEL_CA
                        functions=["sf_command(SFC_SET_BROADCAST_INFO/SFC_SET_CART_INFO)", "broadcast_var_set", "cart_var_set"],
                        bounds="datasize = fixed part + 0..8 bytes (symbolic), length field any 32-bit value"))
 
+for sel in ("SEL_BEXT_SHORT", "SEL_BEXT_BIG", "SEL_CART_SHORT", "SEL_CART_BIG"):
+    HARNESSES.append(H("metarefuse." + sel[4:].lower(), "C17/meta_refuse.c", link=["common", "broadcast", "cart"], stubs=["psf_log_printf"], defines={sel: 1, "MF_CAP": 16, "SNP_MAX": 300, "MEMCPY_MAX": 16},
+                       unwind=4, unwindset=["snprintf.0:301", "snprintf.1:301", "strlen.0:300", "psf_strlcpy_crlf.0:300", "psf_strlcat.0:300"], checks="mem",
+                       include_env=("log_stub", "memfile", "snprintf_model", "clock_model"), timeout=200,
+                       functions=["broadcast_var_set", "cart_var_set"], bounds="the two refusal conditions (length field > block with datasize = fixed part; block >= the 16K record), handle mode symbolic"))
 # the scanning commands (SFC_CALC_*) have their own harness family (L4/calc.c), shared with C18
 import importlib.util, os
 _spec = importlib.util.spec_from_file_location("reg_C18_for_C17", os.path.join(os.path.dirname(os.path.abspath(__file__)), "C18.py"))
